@@ -71,6 +71,9 @@ func checkGuarded(c *Ctx, lc *LockCtx, scope []*ssa.Function, spec GuardSpec) in
 			if freshBase(a.Base) {
 				continue // object under construction, not yet shared
 			}
+			if unreachableHelper(lc, a.Fn) {
+				continue // left-over helper nothing calls: no execution to judge
+			}
 			if spec.WritesOnly && !a.Write {
 				continue
 			}
